@@ -37,8 +37,9 @@ _lk = st.sampled_from([0] * 12 + [-12, -11, -10, -10, -10, -9, -8, -7, -6, -5, -
 _ej = st.sampled_from([0] * 11 + [-8, -7, -6, -5, -4, -3, -2, -1, 1, 2, 3, 4, 5, 6, 7, 8])
 # solve: the minimisers of scipy.optimize take trial steps of absolute size 1 (Powell's line search bracket, the initial
 # simplex of Nelder-Mead), i.e. 10^-k Burgers vectors - GammaSurface wraps a fractional coordinate by subtracting 1 in a
-# loop, so that cells of numerically small size make one energy evaluation take hours (speed is not part of the property)
-_lk_solve = st.sampled_from([0] * 4 + [-1, 1, 2, 2])
+# loop, so that cells of numerically small size make one energy evaluation take hours (speed is not part of the property);
+# k = -2 still runs at the usual speed
+_lk_solve = st.sampled_from([0] * 4 + [-2, -2, -1, 1, 2, 2])
 
 
 def pow10(k):
